@@ -58,6 +58,7 @@ class World:
         self.inv = 0
         self.sim = None
         self.fired = {}
+        self.serdes_calls = {}
         self.reach = {}
         self.api_calls = 0
         self.fn_entries = 0
@@ -438,6 +439,13 @@ class Backend:
         if under is not None:
             ev["under_done"] = under["Id"]
             ev["under_name"] = under.get("Name")
+        if upd["Type"] == "EXECUTION" and upd.get("Payload"):
+            import hashlib
+            try:
+                canon_json = json.dumps(json.loads(upd["Payload"]))
+                ev["jdigest"] = hashlib.blake2b(canon_json.encode(), digest_size=8).hexdigest()
+            except (ValueError, TypeError):
+                ev["jdigest"] = None
         if upd.get("StepOptions"):
             ev["delay"] = upd["StepOptions"].get("NextAttemptDelaySeconds")
         if upd.get("ContextOptions"):
